@@ -82,7 +82,22 @@ impl Family for Files {
         let rendered = json!({"sources": sources.iter().map(|s| s.replace(&root.display().to_string(), "$ROOT")).collect::<Vec<_>>(),
                               "references": refs.iter().map(|s| s.replace(&root.display().to_string(), "$ROOT")).collect::<Vec<_>>()});
         let key = hash_str(&rendered.to_string());
-        let options = SliceOptions { sources: sources.clone(), references: refs.clone(), ..Default::default() };
+        // the options come from the real command-line parser (paths may hold characters an option syntax could care about,
+        // a comma for instance); a command line without a source is not one the parser accepts: built by hand then
+        let mut argv: Vec<String> = vec!["slicec".to_owned()];
+        argv.extend(sources.iter().cloned());
+        for r in &refs {
+            argv.extend(["-R".to_owned(), r.clone()]);
+        }
+        let options = match <SliceOptions as clap::Parser>::try_parse_from(&argv) {
+            Ok(o) => o,
+            Err(_) => SliceOptions { sources: sources.clone(), references: refs.clone(), ..Default::default() },
+        };
+        if !sources.is_empty() && (options.sources != sources || options.references != refs) {
+            let fail = Some(mismatch("sources and references as the command-line parser hands them on", json!({"sources": sources, "references": refs}),
+                                     json!({"sources": options.sources, "references": options.references})));
+            return Outcome { fail, nontrivial: true, key, rendered };
+        }
         let state = slicec::compile_from_options(&options);
 
         // ---- observe: canonical identity (relative to the root), role, whether it was parsed
